@@ -90,7 +90,7 @@ class Rx:
         if mode == "search":
             nfa.trans[s].append((ALL, s))
         e = b.seq(list(tree), cur, top=True)
-        if mode in ("match", "search"):
+        if mode in ("match", "search") and not getattr(b, "_anchored_end", False):
             nfa.trans[e].append((ALL, e))
         return cls._determinise(nfa, s, e, repr(pattern))
 
